@@ -361,7 +361,7 @@ func runC01(r *core.Run) {
 			t = t.In(time.FixedZone(fmt.Sprintf("UTC%+d", off), off*3600))
 			timeClass += fmt.Sprintf("@UTC%+d", off)
 		}
-		entry := r.Intn(16, "entry")
+		entry := r.Intn(17, "entry")
 		if entry >= 9 && entry <= 11 && !(wantTDX) { // TDX entries need a TDX world
 			entry = r.Intn(9, "entry-snp")
 		}
@@ -589,6 +589,18 @@ func callEntry(r *core.Run, entry int, d delivery, cpool *x509.CertPool, rootLis
 		}
 		o.RootsOfTrust, o.Now = cpool, t
 		return f(snpAtt(meas, nil), d.bytes), "closure/late-options", false
+	case 16:
+		// a long-lived validator that first downloaded the genuine endorsement for this very
+		// measurement (a guest without a certificate-table entry), and is now handed a guest whose
+		// table carries the delivery: what is accepted is what this guest carries
+		net.Objects[SnpURL(meas)] = d.base.Bytes
+		o := &verify.Options{RootsOfTrust: Pool(a.Root), Now: a.A.Now.Add(time.Hour), Getter: net}
+		f := verify.SNPValidateFunc(o)
+		if perr := f(snpAtt(meas, nil), nil); perr == nil {
+			r.Probe("validator-primed-by-download")
+		}
+		o.RootsOfTrust, o.Now = cpool, t
+		return f(snpAtt(meas, nil), d.bytes), "closure/after-its-own-download", false
 	case 14:
 		// sign/ops: verify a message signature "from the CA": the CA double serves the delivered
 		// certificate for the key and the caller's roots as its bundle
